@@ -309,7 +309,7 @@ func (eng *Engine) findFunc(fc *FuncContract) *ssa.Function {
 func (eng *Engine) newFEnc(fn *ssa.Function, prop string) *FEnc {
 	e := &FEnc{eng: eng, fn: fn, d: newDecls(), vals: map[ssa.Value]*Val{}, allocOf: map[*ssa.Alloc]int{},
 		factDone: map[string]bool{}, loops: map[*ssa.BasicBlock]*loopInfo{}, domDepth: map[*ssa.BasicBlock]int{},
-		epochPreds: map[int][]epochEdge{}, epochKeep: map[int]epochKeep{}, heapSorts: map[string]string{}, heapDeclared: map[string]bool{},
+		epochPreds: map[int][]epochEdge{}, epochKeep: map[int]epochKeep{}, epochRefs: map[int][]keepRef{}, heapSorts: map[string]string{}, heapDeclared: map[string]bool{},
 		safetyCount: map[string]int{}, usedGhost: map[string]bool{}, prop: prop, prune: true,
 		parts: map[string]*Obligation{}, atCallHits: map[*Clause]int{}, calleesUsed: map[string]*FuncContract{}, rangeGhost: map[*ssa.Range]int{}, catParts: map[string][]string{}, catCache: map[string]string{}}
 	if fn != nil {
